@@ -87,7 +87,7 @@ static void run_case(const Scene &sc, const vector<Op> &ops) {
                 double s0 = swept(before[ei], cb[v][0], cb[v][1]), s1 = swept(after[ei], nodes[v]->rect->getCentreX(), nodes[v]->rect->getCentreY());
                 if (fabs(s1 - s0) > 1.5 * M_PI) ctx.violation("node_jumped_across_edge", {}, desc, mcx::fmt("edge %zu node %zu swept angle %g -> %g", ei, v, s0, s1)); }
         }
-    } catch (vpsc::CriticalFailure &f) { ctx.count("aborted_by_assert"); ctx.cls("assert", f.what().substr(0, 160)); }
+    } catch (vpsc::CriticalFailure &f) { ctx.library_abort(f.what(), base + ops_str(ops, ops.size())); }
     catch (...) { ctx.count("aborted_by_exception"); }
     if (bendSeen) ctx.count("nontrivial");
     for (auto e : es) delete e; for (auto n : nodes) { delete n->rect; delete n->var; delete n; }
